@@ -202,6 +202,32 @@ def run(ctx):
         res.site(key, True, {"field": "%s.%s" % (ty, field), "writer": w.path, "verdict": "quoted via QuotedString" if ok else "VIOLATION"})
         if not ok:
             res.find(key, w.loc(), "the parser fills %s.%s from a quoted-string token, but <%s as Quil>::write does not write it through QuotedString: quotes/backslashes in it are not escaped" % (ty, field, ty), "`DELAY 0 \"a\\\"b\" 1.0` prints `DELAY 0 \"a\"b\" 1`, which fails to parse")
+    # K6 serialized text is emitted verbatim: a writer that takes the text of a nested value (to_quil / to_quil_or_debug /
+    #    format!) and re-processes it by lines or by substitution changes the content of any string literal that contains
+    #    the affected characters
+    from qv.engine import fn_expr_operand as _op, walk_expr as _wx, callee_path as _cp
+    REPROCESS = {"split", "lines", "split_terminator", "replace", "replacen", "trim", "trim_end", "trim_start", "split_whitespace", "to_uppercase", "to_lowercase", "split_inclusive", "rsplit", "splitn"}
+    writers_ = [f for f in db.fns if f.name == "write" and f.path.endswith("as quil_rs::quil::Quil>::write")]
+    nre = 0
+    for w in writers_:
+        for g in [w] + db.closures_of(w):
+            for bb, t, c in g.calls():
+                if not (c and c.get("name") in REPROCESS and t["args"]):
+                    continue
+                if "str" not in _cp(c) and "String" not in _cp(c):
+                    continue
+                e = _op(g, t["args"][0])
+                ns = []
+                _wx(e, ns.append)
+                srcs = [n[1].rsplit("::", 1)[-1] for n in ns if n[0] == "call" and n[1] and n[1].rsplit("::", 1)[-1] in ("to_quil", "to_quil_or_debug", "format", "to_string")]
+                if not srcs:
+                    continue
+                nre += 1
+                key = "K6|serialized-text-reprocessed|%s" % w.impl_self_path()
+                res.site(key, True, {"operation": c.get("name"), "on_result_of": sorted(set(srcs)), "verdict": "VIOLATION"})
+                res.find(key, g.loc(t.get("sp")), "the writer of %s re-processes the serialized text of a nested value with str::%s: a string literal inside it that contains the affected characters is changed" % (w.impl_self_path().replace("quil_rs::", ""), c.get("name")),
+                         "`DEFCIRCUIT FOO:\n    PRAGMA note \"a<newline>b\"`: the line break inside the string comes back followed by four spaces")
+    res.site("K6|serialized-text-reprocessed", True, {"writers": len(writers_), "reprocessing_sites": nre})
     res.explanation = (
         "Effect confinement for the quote character over the %d functions reachable from the %d Quil::write impls (MIR constants and un-expanded templates, two independent readings): "
         "%d quoting sites inside QuotedString::fmt (positive control), %d elsewhere (must be 0). The escape table extracted from QuotedString::fmt and the str::replace list of the lexer must be inverse; "
